@@ -44,7 +44,8 @@ def r1(ctx):
       continue
     n += 1
     reset = [i for i, e in enumerate(ev) if e.kind == 'stmt' and isinstance(e.node, ast.Assign) and U(e.node.targets[0]) == 'self._servers']
-    adds = [i for i, e in enumerate(ev) if e.kind == 'call' and U(e.node.func).endswith('__AddServer')]
+    adds = [i for i, e in enumerate(ev) if (e.kind == 'call' and U(e.node.func).endswith('__AddServer')) or
+            (e.kind in ('for_iter', 'for_done') and '__AddServer' in U(e.node))]
     oc = [i for i, e in enumerate(ev) if e.kind == 'call' and U(e.node.func) == 'self._OpenInitialChannels']
     gs = [i for i, e in enumerate(ev) if e.kind == 'call' and call_attr(e.node) == 'GetServers']
     ini = [i for i, e in enumerate(ev) if e.kind == 'call' and call_attr(e.node) == 'Initialize']
@@ -106,6 +107,14 @@ def r2(ctx):
     ch = [e.node for e in ev if e.kind == 'call' and U(e.node.func) == 'self._OnServersChanged']
     ok = len(pops) == 1 and len(pops[0].args) == 2 and U(pops[0].args[1]) == 'None' and len(ch) == 1 and U(ch[0].args[0]) == U(pops[0].args[0]) and U(ch[0].args[2]) == 'False' and ex[0] == 'ret'
     ctx.ob('C05.R2', r, 'leave: endpoint popped with a default and the subclass told (added=False)', ok, 'leave path: pops %s, notifies %s' % ([U(p) for p in pops], [U(c) for c in ch]), why)
+  def mr(call, armed):
+    return ['Exception'] if U(call.func) == 'self._OnServersChanged' else []
+  for ev, ex in enum_paths(ctx, r, mr):
+    if ex[0] == 'raise':
+      pops = [e for e in ev if e.kind == 'call' and U(e.node.func) == 'self._servers.pop' and not e.info]
+      ctx.ob('C05.R2', r, 'the endpoint is already removed from the member table when the subclass step can fail', len(pops) == 1,
+             'if the subclass step raises (e.g. closing a dead channel) the endpoint stays registered in _servers',
+             why + ' (a later re-join of that endpoint is then ignored as a duplicate: a current member never gets traffic)')
   l = prog.func(B, 'LoadBalancerSink.__OnServerSetLeave')
   for ev, ex in enum_paths(ctx, l):
     rm = [e for e in ev if e.kind == 'call' and U(e.node.func).endswith('__RemoveServer')]
